@@ -6,7 +6,7 @@ from harness import muxlib, muxgen
 PID = 'C02'
 RULE = ('random typed pipelines (depth <= 3: simple stateful operators inside group_by/roll/split/time_split/tee_map, '
         'nested) x well-formed keyed traces with 1-4 slots, sparse/descending indices, up to 3 successive lifetimes per '
-        'slot, random interleaving. non-trivial = at least one stateful operator, >= 2 lifetimes, and a slot that is '
+        'slot, random interleaving; composite operators placed directly on 2-3 interleaved keys (and nested once more) with inner stateful operators. non-trivial = at least one stateful operator, >= 2 lifetimes, and a slot that is '
         'reused or >= 2 interleaved keys; distinct = distinct (pipeline, trace) JSON')
 TRUSTED = ['modelled not verified: RxPY synchronous delivery / Subject fan-out order / AutoDetachObserver stop after '
            'on_error; Python dict insertion order, ==/hash on keys; copy.deepcopy freshness of scan seeds',
@@ -17,6 +17,7 @@ SHARD = 150
 COQ_TARGETS = ['theories/Mux/MuxCorr.vo']
 CTYPE = 'muxcase'
 CHECKER = 'mux_check'
+RAISED_IS_FAILURE = True      # see main.safe_oracle
 STATEFUL = {'scan', 'first', 'last', 'take', 'distinct', 'duc', 'lag', 'pad_start', 'pad_end', 'start_with', 'batch',
             'assert1', 'tee', 'group', 'roll', 'split', 'time_split', 'count', 'sum', 'mean', 'min', 'max',
             'variance', 'stddev', 'to_list'}
@@ -37,6 +38,25 @@ def generate(rng, tier):
                                ['start_with', [muxgen.ev(50)]], ['first'], ['batch', 2]])
             ast = [head] + muxgen.Gen(rng, heads=False).pipe(muxgen.INT if head[0] in ('assert1', 'duc', 'distinct', 'scan', 'pad_start', 'take', 'start_with', 'first') else muxgen.ANY, 0, rng.randint(0, 2))[0]
             trace = muxgen.gen_trace(rng, muxgen.INT, nkeys=rng.choice([2, 3]), sorted_=True, bursts=True)
+        if rng.random() < 0.15:
+            # a composite operator directly on 2-3 interleaved keys (and nested once more): consecutive items of
+            # DIFFERENT outer keys that map to the same group / window / segment of their own key
+            inner = [rng.choice([['scan', ['add'], muxgen.ev(0), 0, None], ['count', 0], ['to_list'], ['count', 1], ['last'],
+                                 ['lag', 1], ['distinct', None], ['take', 2]])]
+            def head(inner):
+                k = rng.choice(['group', 'group', 'roll', 'split', 'time_split'])
+                if k == 'group':
+                    return [['group', rng.choice([['mod', 2], ['mod', 3], ['isodd'], ['const', muxgen.ev(1)]]), inner]]
+                if k == 'roll':
+                    w, st = rng.choice([(3, 1), (4, 2), (2, 1), (5, 2), (2, 2)])
+                    return [['roll', w, st, inner]]
+                if k == 'split':
+                    return [['split', rng.choice([['floordiv', 2], ['floordiv', 4], ['isodd']]), inner]]
+                return [['time_split', ['id'], rng.choice([None, 4]), rng.choice([None, 2]), None, 1, inner]]
+            ast = head(inner)
+            if rng.random() < 0.4:
+                ast = head(ast)
+            trace = muxgen.gen_trace(rng, muxgen.INT, nkeys=rng.choice([2, 3]), sorted_=rng.random() < 0.5)
         cases.append({'ast': ast, 'trace': trace})
     return cases
 
